@@ -50,10 +50,16 @@ func genC20(mode string) func(t *rapid.T) c20Case {
 // genMetricsRequest draws a request with a cheap body class mix; methods are
 // the standard ones (thorough adds non-standard ones, labelled "unknown").
 func genMetricsRequest(t *rapid.T, mode string) genReq {
+	if rapid.IntRange(0, 7).Draw(t, "big_body") == 0 {
+		// a body of several megabytes: whatever layer answers it (handler or anything in front of it), the response must be counted
+		m := genValidParams(t, mode, 3, 2)
+		n := pick(t, "big_pad", 4<<20, 8<<20, 16<<20)
+		return genReq{Method: "POST", Body: m.writeDoc(styleHexLower), PadLen: n, PadAt: "whitespace-prefix", Class: "overlong:whitespace", Expect: "valid", Hash: m.InputHash}
+	}
 	for {
 		r := genRequest(t, mode, 3, 2)
-		if strings.HasPrefix(r.Class, "overlong") {
-			continue // megabyte bodies only slow this check down
+		if strings.HasPrefix(r.Class, "overlong") && rapid.IntRange(0, 2).Draw(t, "keep_overlong") != 0 {
+			continue // keep only a third of the megabyte bodies: they slow this check down
 		}
 		if Thorough() && rapid.IntRange(0, 9).Draw(t, "oddmethod") == 0 {
 			r.Method = pick(t, "odd", "FOO", "post", "PROPFIND", "TRACE", "CONNECTX")
